@@ -331,6 +331,12 @@ impl FixtureDatabase {
                 // should also be marked as plugin files (transitive propagation).
                 let importer_is_plugin = self.plugin_fixture_files.contains_key(file_path);
 
+                // Wait for an analysis of this file that is under way (a notification): while
+                // it runs, the cached text may already be the new one although the AST that
+                // stands for its last valid version has not been stored yet
+                let analysis_lock = self.analysis_lock(file_path);
+                let _no_analysis_under_way = analysis_lock.lock().unwrap();
+
                 // Get the file content
                 let Some(content) = self.get_file_content(file_path) else {
                     continue;
